@@ -1,30 +1,24 @@
 ---------------------------- MODULE Version_Gen ----------------------------
 (* Export of the bounded input domains of Version_MC as JSON, one PrintT line
-   per group, for execution on the real code (harness/version_h.py).
+   per seed state, for execution on the real code (harness/version_h.py).
 
-   GenSpecA  one state per <<class pair, a>>: the line lists every b, so the
-             harness evaluates the real operators for all pairs (a, b) on
-             objects of the two named dawgie.Version subclasses.
-   GenSpecB  one state per engine of the plan: the line lists every case of
-             that engine (targets, persisted lists / recorded history). *)
+   "pseed" <<class pair, a>>: the line lists every b, so the harness evaluates
+           the real operators for all pairs (a, b) on objects of the two named
+           dawgie.Version subclasses.
+   "seed"  <<plan parameters, engine>>: the line lists every case of that
+           engine (targets, persisted lists / recorded history).
+   Emit is listed as an INVARIANT next to InvPairs / InvBuild: TLC evaluates it
+   once per distinct state. *)
 EXTENDS Version_MC, Json
 
-CONSTANT ClassPairs     \* set of <<class of a, class of b>>
-
-Classes == {"plain", "local", "getver", "alg", "anz", "reg", "sv", "val"}
-ClassPairsQuick == { <<"plain", "plain">>, <<"alg", "sv">>, <<"val", "local">>, <<"getver", "anz">> }
-ClassPairsAll   == Classes \X Classes
-
-GenSpecA == pr \in ClassPairs \X Ver /\ cs = 0 /\ [][UNCHANGED mvars]_mvars
-EmitA == PrintT(<<"PAIRS", ToJson([ca |-> pr[1][1], cb |-> pr[1][2], a |-> pr[2], bs |-> SetToSeq(Ver)])>>)
-
-PlanEngines == UNION { p.engines : p \in Plan }
 Compact(c) == [targets |-> c.targets, mode |-> c.mode, ghost |-> c.ghost, nstale |-> c.nstale,
                pers |-> c.pers, hist |-> c.hist]
-GroupOf(e) == [eng |-> e,
-               elems |-> [k \in DOMAIN ElSeq(e) |-> PathOf(e, ElSeq(e)[k])],
-               decl  |-> [k \in DOMAIN ElSeq(e) |-> CurOf(e, ElSeq(e)[k])],
-               cases |-> SetToSeq({ Compact(c) : c \in UNION { CasesFor(p, e) : p \in { q \in Plan : e \in q.engines } } })]
-GenSpecB == pr = 0 /\ cs \in PlanEngines /\ [][UNCHANGED mvars]_mvars
-EmitB == PrintT(<<"GROUP", ToJson(GroupOf(cs))>>)
+GroupOf(pp, e) == [eng |-> e,
+                   elems |-> [k \in DOMAIN ElSeq(e) |-> PathOf(e, ElSeq(e)[k])],
+                   decl  |-> [k \in DOMAIN ElSeq(e) |-> CurOf(e, ElSeq(e)[k])],
+                   cases |-> SetToSeq({ Compact(c) : c \in CasesFor(pp, e) })]
+Emit ==
+    CASE ph = "pseed" -> PrintT(<<"PAIRS", ToJson([ca |-> pr[1][1], cb |-> pr[1][2], a |-> pr[2], bs |-> SetToSeq(Ver)])>>)
+      [] ph = "seed"  -> PrintT(<<"GROUP", ToJson(GroupOf(cs[1], cs[2]))>>)
+      [] OTHER -> TRUE
 =============================================================================
